@@ -107,11 +107,64 @@ def parked_order_scenarios(ctx: Ctx):
                                "were executed in an order other than the order of submission", "parked_cases": bad})
 
 
+def scan_pass_differential(ctx: Ctx, patterns=None):
+    """The real `_submit_waiting_task` on wait lists whose tasks hold finished / unfinished futures, against `C11Scan.scanPass`
+    (theorems forwarded_in_submission_order, pass_partitions): same positions forwarded, in the same queue order, same rest."""
+    import queue
+    from concurrent.futures import Future
+
+    from executorlib.interactive.shared import _submit_waiting_task
+
+    n = 150 if ctx.tier == "quick" else 1500
+    if patterns is None:
+        patterns = [[1, 1], [1, 1, 1, 1], [0, 1, 1, 0, 1], [0], [1], []]
+        patterns += [[int(ctx.rng.random() < 0.6) for _ in range(ctx.rng.randint(0, 9))] for _ in range(n)]
+    model = ctx.model.ask_many([dict(op="scan_pass", ready=pt) for pt in patterns])
+    bad = []
+    for pt, mo in zip(patterns, model):
+        wl = []
+        for k, r in enumerate(pt):
+            dep = Future()
+            if r:
+                dep.set_result(k)
+            # half of the ready ones also carry a second finished future; the argument holds the future itself
+            extra = Future()
+            extra.set_result(-1)
+            wl.append({"fn": len, "args": (dep,), "kwargs": {}, "future": Future(), "future_lst": [dep] + ([extra] if k % 2 else []),
+                       "resource_dict": {}, "_pos": k})
+        q = queue.Queue()
+        try:
+            rest = _submit_waiting_task(wait_lst=list(wl), executor_queue=q)
+            fwd = []
+            while not q.empty():
+                fwd.append(q.get_nowait()["_pos"])
+            impl = {"fwd": fwd, "rest": [t["_pos"] for t in rest]}
+        except BaseException as e:  # noqa
+            impl = {"raised": repr(e)}
+        ctx.count("scan_pass.ready_%d" % min(sum(pt), 4))
+        if impl != mo:
+            bad.append({"ready": pt, "impl": impl, "model": mo})
+    ctx.count("scan_pass_differential", len(patterns))
+    ctx.oblige("correspondence: _submit_waiting_task = C11Scan.scanPass (forwarded positions in queue order, remaining positions)", not bad)
+    if bad:
+        bad.sort(key=lambda d: len(d["ready"]))
+        first = bad[0]
+        out_of_order = isinstance(first["impl"].get("fwd"), list) and first["impl"]["fwd"] != sorted(first["impl"]["fwd"])
+        ctx.violation({"kind": "scan_pass_out_of_order" if out_of_order else "scan_pass", "failing_input": True},
+                      {"what": "one pass of the resolver over its wait list differs from C11Scan.scanPass"
+                               + (": calls ready in the same pass are put on the worker queue in an order other than the order of "
+                                  "submission, a single worker runs them in that order" if out_of_order else ""),
+                       "scan_cases": bad[:5]})
+
+
 def body(ctx: Ctx):
     if ctx.replay_file:
         import json as _json
 
         _rp = _json.load(open(ctx.replay_file))
+        if "scan_cases" in _rp:
+            scan_pass_differential(ctx, [c["ready"] for c in _rp["scan_cases"]])
+            return {"rule": "replay of the wait-list pass differential"}
         if "parked_cases" in _rp:
             parked_order_scenarios(ctx)
             return {"rule": "replay of the parked-on-one-future scenarios"}
@@ -123,12 +176,14 @@ def body(ctx: Ctx):
     res = sysprop.campaign(ctx, "C11", PROFILE, n, CORPUS, REQUIRED)
     kill_scenarios(ctx)
     parked_order_scenarios(ctx)
+    scan_pass_differential(ctx)
     res["rule"] = ("engine B: batches of 2-8 calls whose bodies read and increment an interpreter-global counter and report (pid, counter); "
                    "block executors with 1-3 workers and per-call executors, resolver on/off; oracles: per-call mode - every pid used once "
                    "and every counter 0; block mode - per pid the counters are 0,1,2,... and [enter, exit] intervals are disjoint; one "
                    "worker - calls without futures execute in submission order; non-trivial = >=2 calls; plus three fault scenarios in which the "
                    "worker processes are killed between two calls, and three scenarios with 2 / 4 / 7 calls parked on one gated future "
-                   "behind one worker (executed in submission order)")
+                   "behind one worker (executed in submission order); differential of the real _submit_waiting_task against "
+                   "C11Scan.scanPass on wait lists of 0-9 tasks with finished / unfinished futures")
     res["trusted_base_extra"] = sysprop.TRUST
     return res
 
